@@ -19,4 +19,11 @@ class MatrixOfCellIdentifiersTokenTranslator(AbstractTranslator):
         matrix_cell_codes = '[' + ','.join(
             ['[' + ','.join([CellTranslator.translate(j, excel, context) for j in i]) + ']' for i in matrix]) + ']'
 
+        if start_cell.row is None and finish_cell.row is None:
+            # a whole-column area covers every row the sheet has WHEN IT IS EVALUATED (rows may have been added with set_cells):
+            # the cells stored in the workbook have been translated above, the rows are enumerated by the generated code
+            uid_prefixes = ','.join(f"'_{start_cell.title}_{column}_'" for column in range(start_cell.column, finish_cell.column + 1))
+            matrix_cell_codes = f"[[self._cell_preprocessor(uid_prefix + str(row)) for uid_prefix in ({uid_prefixes},)] " \
+                                f"for row in range(self._sheets_size[{start_cell.title}]['last_row'])]"
+
         return context.set_sub_cell(start_cell, matrix_cell_codes)
